@@ -14,8 +14,20 @@ CONSTANTS Opts
 Vals == {"absent", "v1", "v2", "vEmpty"}    \* vEmpty: the option is given an empty / falsy value (still "given")
 FileKinds == {"none", "ok", "invalidJson", "topLevelList", "topLevelScalar", "wrongValueType", "missingExplicit"}
 
-VARIABLES cli, file, fileKind, eff, message, initOk, done
-vars == <<cli, file, fileKind, eff, message, initOk, done>>
+\* Where the file's values live.  `name`: the file holding them (".fortlsrc", ".fortls.json", ".fortls" are the
+\* default names, searched in that order; "custom" is any other name); `explicit`: the name is requested with
+\* -c/--config; `decoy`: a second, default-named file is present too and gives every involved option a
+\* DIFFERENT value.  The requested file wins when it is requested explicitly; otherwise the search order decides.
+Layouts == {[name |-> "fortls",     explicit |-> FALSE, decoy |-> "none"],
+            [name |-> "fortlsjson", explicit |-> TRUE,  decoy |-> "fortlsrc"],
+            [name |-> "fortls",     explicit |-> TRUE,  decoy |-> "fortlsrc"],
+            [name |-> "custom",     explicit |-> TRUE,  decoy |-> "fortls"],
+            [name |-> "fortlsjson", explicit |-> FALSE, decoy |-> "fortls"],
+            [name |-> "fortls",     explicit |-> FALSE, decoy |-> "fortlsrc"]}
+Order(n) == CASE n = "fortlsrc" -> 1 [] n = "fortlsjson" -> 2 [] n = "fortls" -> 3 [] OTHER -> 4
+
+VARIABLES cli, file, fileKind, layout, eff, message, initOk, done
+vars == <<cli, file, fileKind, layout, eff, message, initOk, done>>
 
 Quiet == [o \in Opts |-> "absent"]
 Init == /\ \E o1, o2 \in Opts : \E a1, a2, b1, b2 \in Vals :
@@ -23,21 +35,27 @@ Init == /\ \E o1, o2 \in Opts : \E a1, a2, b1, b2 \in Vals :
              /\ file = [Quiet EXCEPT ![o1] = b1, ![o2] = b2]
         /\ fileKind \in FileKinds
         /\ (fileKind = "none" => file = Quiet)
+        /\ layout \in (IF fileKind = "ok" THEN Layouts ELSE {[name |-> "fortls", explicit |-> FALSE, decoy |-> "none"]})
         /\ eff = Quiet /\ message = FALSE /\ initOk = FALSE /\ done = FALSE
 
 FileUsable == fileKind = "ok"
-Effective(o) == IF FileUsable /\ file[o] # "absent" THEN file[o]
+MainWins == layout.explicit \/ layout.decoy = "none" \/ Order(layout.name) < Order(layout.decoy)
+Conflict(v) == IF v = "absent" THEN "absent" ELSE IF v = "v1" THEN "v2" ELSE "v1"
+\* what "the configuration file" says about o: the winning file's value
+FileVal(o) == IF MainWins THEN file[o] ELSE Conflict(file[o])
+Effective(o) == IF FileUsable /\ FileVal(o) # "absent" THEN FileVal(o)
                 ELSE IF cli[o] # "absent" THEN cli[o] ELSE "default"
 Initialize == /\ ~done /\ done' = TRUE
               /\ eff' = [o \in Opts |-> Effective(o)]
               /\ message' = (fileKind \notin {"none", "ok"})
               /\ initOk' = TRUE
-              /\ UNCHANGED <<cli, file, fileKind>>
+              /\ UNCHANGED <<cli, file, fileKind, layout>>
 Next == Initialize
 Spec == Init /\ [][Next]_vars
 
-FileWins == done => \A o \in Opts : (FileUsable /\ file[o] # "absent") => eff[o] = file[o]
-AbsentKeepsCli == done => \A o \in Opts : (~FileUsable \/ file[o] = "absent") =>
+FileWins == done => \A o \in Opts : (FileUsable /\ FileVal(o) # "absent") => eff[o] = FileVal(o)
+RequestedFileWins == done => \A o \in Opts : (FileUsable /\ layout.explicit /\ file[o] # "absent") => eff[o] = file[o]
+AbsentKeepsCli == done => \A o \in Opts : (~FileUsable \/ FileVal(o) = "absent") =>
                      eff[o] = (IF cli[o] # "absent" THEN cli[o] ELSE "default")
 MalformedIsReported == done => ((fileKind \notin {"none", "ok"}) => (message /\ initOk))
 InitAlwaysCompletes == done => initOk
